@@ -37,7 +37,7 @@ PROBES = [
     "vector_checked", "pair_both_directions", "create_frames_reentered", "dynamic_lookup_created_frames", "unknown_frame_refused", "mutated_then_queried_again",
     "registration_interleaved", "config_flip_after_first_use", "restart", "kernel_fault_fired", "without_pck", "date_last_minute_of_day", "analytic_history_independent",
     "analytic_within_series_accuracy", "builtin_frame_to_body", "analytic_other_body_on_neighbouring_days", "reversed_propagator_checked", "non_cartesian_state_changed_body", "frame_attached_to_a_jpl_orbit", "kernel_frame_served_after_analytic_namesake", "pickled_body_state_converted",
-    "kernel_variant_type3", "kernel_variant_reordered", "kernel_variant_split", "kernel_variant_split_reordered", "kernel_variant_upper", "constant_files_upper_case_extension", "centre_offset_asked_directly", "propagated_after_in_place_change",
+    "kernel_variant_type3", "kernel_variant_reordered", "kernel_variant_split", "kernel_variant_split_reordered", "kernel_variant_upper", "kernel_variant_geomoon", "kernel_variant_override", "body_table_generated", "constant_files_upper_case_extension", "centre_offset_asked_directly", "propagated_after_in_place_change",
 ]
 REAL_VS_STUB = "real: beyond.env.jpl (Bsp/Pck singletons, JplPropagator, create_frames, get_orbit, get_frame), frames/centres routing, Date, jplephem reading the real DE403 2000-2020 kernel and the real PCK text files (faulted copies in a scratch directory); stub: none; model: own jplephem handle on the intact kernel chained segment by segment, own TDB (sim/models/timescales.py)"
 ASSUMPTIONS = [
@@ -54,7 +54,7 @@ PCKS = ["pck00010.tpc", "gm_de431.tpc"]
 _model = {}
 _variants = {}
 
-KERNEL_VARIANTS = ("stock", "type3", "reordered", "split", "split_reordered", "upper")
+KERNEL_VARIANTS = ("stock", "type3", "reordered", "split", "split_reordered", "upper", "geomoon", "override")
 
 
 def _variant_dir():
@@ -88,7 +88,7 @@ def _new_daf(fp, old):
     return d
 
 
-def _write_kernel(dst, picks, as_type3=False):
+def _write_kernel(dst, picks, as_type3=False, special=None):
     """Write the segments `picks` (indices into the stock file's summaries, in that order) of the stock kernel to dst; as type 3 the
     records get velocity polynomials = exact derivatives of the position polynomials, in km/s (legal, read by jplephem)."""
     from jplephem.spk import SPK
@@ -103,6 +103,25 @@ def _write_kernel(dst, picks, as_type3=False):
         for k in picks:
             name, values = summaries[k]
             start, end = values[-2], values[-1]
+            if special == "geomoon" and values[2] == 301:
+                # the Moon given relative to the Earth (399 -> 301) instead of the Earth-Moon barycentre: same record layout for both
+                # bodies in this file, so the coefficients are subtracted record by record
+                e_name, e_values = [sv_ for sv_ in summaries if sv_[1][2] == 399][0]
+                init, intlen, rsize, n = old.read_array(end - 3, end)
+                rsize, n = int(rsize), int(n)
+                moon = np.array(old.read_array(start, end - 4)).reshape(n, rsize)
+                earth = np.array(old.read_array(e_values[-2], e_values[-1] - 4)).reshape(n, rsize)
+                moon[:, 2:] = moon[:, 2:] - earth[:, 2:]
+                d.add_array(name, (values[0], values[1], 301, 399, values[4], 2, 0, 0), np.concatenate((moon.ravel(), [init, intlen, rsize, n])))
+                continue
+            if special == "shift" :
+                # another solution for the same pair: the x coordinate moved by 1000 km (constant term of each record)
+                init, intlen, rsize, n = old.read_array(end - 3, end)
+                rsize, n = int(rsize), int(n)
+                rec = np.array(old.read_array(start, end - 4)).reshape(n, rsize)
+                rec[:, 2] += 1000.0
+                d.add_array(name, tuple(values[:6]) + (0, 0), np.concatenate((rec.ravel(), [init, intlen, rsize, n])))
+                continue
             if not as_type3:
                 d.add_array(name, tuple(values[:6]) + (0, 0), np.array(old.read_array(start, end)))
                 continue
@@ -146,13 +165,17 @@ def kernel_files(variant):
         "reordered": [("reordered.bsp", list(range(n))[::-1], False)],
         "split": [("split_a.bsp", list(range(0, 6)), False), ("split_b.bsp", list(range(6, n)), False)],
         "split_reordered": [("splitr_a.bsp", list(range(10, n))[::-1], False), ("splitr_b.bsp", list(range(0, 10))[::-1], False)],
+        "geomoon": [("geomoon.bsp", list(range(n)), "geomoon")],
+        "override": [("override_b.bsp", [3], "shift")],
     }[variant]
     out = []
     for fn, picks, t3 in spec:
         path = os.path.join(d, fn)
         if not os.path.exists(path):
-            _write_kernel(path, picks, t3)
+            _write_kernel(path, picks, bool(t3) and not isinstance(t3, str), special=t3 if isinstance(t3, str) else None)
         out.append(path)
+    if variant == "override":
+        out = [os.path.join(JPL_DIR, BSP)] + out  # the stock kernel, then a file holding another solution for one pair: the last listed file wins
     _variants[variant] = out
     return out
 
@@ -256,7 +279,7 @@ def gen_plan(rng, tier, i):
         "fault": None,
         "explicit_create": rng.random() < 0.8,
     }
-    kn["kernel"] = child.choice(["stock"] * 5 + ["type3", "type3", "reordered", "reordered", "split", "split_reordered", "upper"])
+    kn["kernel"] = child.choice(["stock"] * 5 + ["type3", "type3", "reordered", "reordered", "split", "split_reordered", "upper", "geomoon", "geomoon", "override", "override"])
     kn["pck_upper"] = child.random() < 0.15  # constant files given under an upper-case extension
     if rng.random() < 0.15:
         kn["fault"] = {"kind": rng.choice(["bsp_missing", "bsp_empty", "bsp_truncated", "pck_missing", "pck_damaged"]), "at": rng.random()}
@@ -273,6 +296,12 @@ def gen_plan(rng, tier, i):
             op.update(name=rng.choice(names[1:]), date=gen_date(rng), how=rng.choice(["frame", "form", "values"]))
             if k == "mutate_again" and child.random() < 0.6:
                 op["then_propagate"] = child.choice([0.25, 1.0, -1.0, 3.5])
+            if k == "get_orbit" and child.random() < 0.3:
+                # a regular table of the body (Orbit.ephem) over weeks or a year: every point at its own instant
+                op["op"] = "body_ephem"
+                op["date"] = [child.randint(51600, 58300), float(child.randrange(86400)), child.choice(["TAI", "TT", "TAI"])]
+                op["span_days"] = child.choice([20.0, 120.0, 360.0])
+                op["n"] = child.randint(4, 10)
         elif k == "dynamic":
             op.update(name=rng.choice(names + ["Nope", "Vulcan"]))
         elif k == "reverse":
@@ -610,6 +639,37 @@ class World:
                 else:
                     self.check_vector(np.array(o2, dtype=float), name, centre, op["date"], where + " (after the caller mutated the previous result)")
         ctx.sig.append(("get_orbit", name, mutate))
+
+    def op_body_ephem(self, op, where):
+        """jpl.get_orbit(body, date).ephem(start, stop, step): a regular table; each point is the body at its own instant."""
+        ctx = self.ctx
+        n = self.node
+        jpl = n.mod("beyond.env.jpl")
+        if getattr(self, "name_clash", False) or self.guarded(self.ensure_frames, where, "create_frames")[1] is not None:
+            return
+        m = model_kernel(self.variant)
+        name = op["name"]
+        if name not in m["index"] or m["index"][name] not in m["seg"]:
+            return
+        centre = m["names"][m["seg"][m["index"][name]].center]
+        date = world.mk_date(n, op["date"][:2], op["date"][2])
+        step_days = op["span_days"] / (op["n"] - 1)
+
+        def do():
+            o = jpl.get_orbit(name, date)
+            return [np.array(p_, dtype=float) for p_ in o.ephem(start=date, stop=n.timedelta(days=op["span_days"]), step=n.timedelta(days=step_days))]
+
+        pts, exc = self.guarded(do, where, f"get_orbit({name}).ephem()")
+        if exc is not None:
+            return
+        ctx.checks += 1
+        ctx.probe("body_table_generated")
+        self.history_nontrivial = True
+        if len(pts) != op["n"] and abs(len(pts) - op["n"]) > 1:
+            ctx.violate("jpl-vectors", {"kind": "table_wrong_length"}, f"{where}: a table of {op['n']} points was asked for, {len(pts)} came")
+            return
+        for k_, p_ in enumerate(pts[: op["n"]]):
+            self.check_vector(p_, name, centre, [op["date"][0], op["date"][1], op["date"][2], k_ * step_days], where + f" (point {k_} of a regular table)")
 
     def op_orbit_as_frame(self, op, where):
         """jpl.get_orbit(body, date).as_frame(name): the body sits at the origin of the frame attached to it, and that origin seen
